@@ -33,9 +33,9 @@ SCHEMAS = {
     "property_names": (7, "obj_int", lambda m, n: {"propertyNames": {"maxLength": 1, "pattern": "^a"}, "additionalProperties": {"maximum": m}}),
     "same_path_same_keyword": (7, "obj_int", lambda m, n: {"allOf": [{"additionalProperties": {"maximum": m}}, {"additionalProperties": {"maximum": n}}],
                                                            "anyOf": [{"maxProperties": 0}, {"required": ["a"]}]}),
-    "names_and_deep": (7, "obj_obj_int", lambda m, n: {"propertyNames": {"maxLength": 0}, "properties": {"a": {"properties": {"b": {"maximum": m}},
+    "names_and_deep": (7, "wrapped_obj", lambda m, n: {"propertyNames": {"maxLength": 0}, "properties": {"a": {"properties": {"b": {"maximum": m}},
                                                                                                        "additionalProperties": {"minimum": n}}}}),
-    "deep_then_names": (6, "obj_obj_int", lambda m, n: {"additionalProperties": {"additionalProperties": {"maximum": m}}, "propertyNames": {"pattern": "^b"}}),
+    "deep_then_names": (6, "wrapped_obj", lambda m, n: {"additionalProperties": {"additionalProperties": {"maximum": m}}, "propertyNames": {"pattern": "^b"}}),
     "nested_arr": (7, "arr_arr_int", lambda m, n: {"items": {"items": {"maximum": m}, "maxItems": 1}, "maxItems": 1}),
     "nested_obj_arr": (6, "obj_arr_int", lambda m, n: {"additionalProperties": {"items": {"maximum": m}, "minItems": 2}, "required": ["a"]}),
 }
@@ -163,13 +163,23 @@ def tree(name, L=1, N=2, code=(0, 0, 0), exclude=()):
             return False
         if isinstance(x, dict):
             # ErrorTree files children in a native dict keyed by path elements: a symbolic key would be hashed
-            # natively (DESIGN 2.1), so object keys range over a concrete catalogue here
+            # natively (DESIGN 2.1), so object keys (at both levels) range over a concrete catalogue here
             for k in x:
                 if k not in KEYS:
                     return False
+                v = x[k]
+                if isinstance(v, dict):
+                    if len(v) > 1:
+                        return False
+                    for k2 in v:
+                        if k2 not in KEYS:
+                            return False
         return True
 
     def body(x, m, n):
+        if kind == "wrapped_obj":
+            # one symbolic object under concrete outer keys (two symbolic levels do not finish): {"a": x, "b": {...}}
+            x = {"a": x, "b": {"a": m}} if len(x) < 2 else {"a": x}
         v = tp.CLS[draft](mk(m, n))
         errs = call(lambda: list(v.iter_errors(x)))
         if len(errs) > 5:
@@ -178,11 +188,12 @@ def tree(name, L=1, N=2, code=(0, 0, 0), exclude=()):
         ok = tree_ok(x, errs, exclude)
         return ok, ("errors%d" % min(len(errs), 2))
 
-    return Spec([("x", KIND_TYPES[kind]), ("m", int), ("n", int)], pre, body, tags=TAGS.get(name, ["errors0", "errors2"]))
+    T = KIND_TYPES["obj_int"] if kind == "wrapped_obj" else KIND_TYPES[kind]
+    return Spec([("x", T), ("m", int), ("n", int)], pre, body, tags=TAGS.get(name, ["errors0", "errors2"]))
 
 
 KEYS = ("", "a", "b", "c", "ab", "ca")
-TAGS = {"d3_required": ["errors2"], "d3_required_order2": ["errors2"], "required_many": ["errors2"], "arr_tuple": ["errors2"]}
+TAGS = {"names_and_deep": ["errors2"], "deep_then_names": ["errors2"], "d3_required": ["errors2"], "d3_required_order2": ["errors2"], "required_many": ["errors2"], "arr_tuple": ["errors2"]}
 
 
 def conditions(tier, seed, active):
